@@ -14,6 +14,15 @@
 //!        the description is written by tools/indep_ufo.py with randomised legal surface syntax (seed) and at most
 //!        one rare spelling (`want`), loaded with `Font::load` and dumped through public getters in desc form.
 //!
+//!   `C05 les <n|i> <seed> <desc> <op;op;...|-> => <dump> <tree> | load-err:.. | save-err:..`
+//!        load–edit–save: the description is rendered to disk (n = by norad, i = by the independent writer), LOADED with
+//!        `Font::load`, edited through the API with names chosen to clash with existing file names (modulo case, modulo
+//!        the replacement of illegal characters, upper-case and non-ASCII), saved, and read by the independent reader;
+//!        `dump` = the in-memory font after the edits (public getters): every glyph of it must be found under its
+//!        contents.plist entry with its own data, no two names may share a file.
+//!        op = `ig.<li>.<name>.<k>` insert a new glyph (advance 1000+k) | `mg.<li>.<old>.<new>` rename | `rg.<li>.<name>` remove |
+//!             `nl.<name>` new layer | `ml.<old>.<new>` rename layer | `rl.<name>` remove layer   (names hex, li = layer index)
+//!
 //! PV token format: see tools/indep_ufo.py.  python3 is spawned once per batch.
 use crate::common::*;
 use crate::rng::Rng;
@@ -1034,7 +1043,7 @@ const STRINGS: &[&str] = &[
     "two  blanks", "line1\nline2", "tab\there", "]]> cdata end", "&amp; already", "100%", "a/b\\c", "\u{2028}sep",
 ];
 const GLYPH_NAMES: &[&str] = &[
-    "a", "A", "a.alt", "uni0041", "\u{e9}", "x y", "q\"<&>'", "A_B", ".notdef", "space", "b", "zero.sups", "\u{c4}*", "\u{416}.sc",
+    "a", "A", "a.alt", "uni0041", "\u{e9}", "x y", "q\"<&>'", "A_B", ".notdef", "space", "b", "zero.sups", "\u{c4}*", "\u{416}.sc", "T_H", "\u{c4}_x", "f_f_i",
 ];
 /// names that the user-name-to-file-name convention maps to ONE file name (they differ only in characters that are
 /// illegal in file names, or in a leading period vs. underscore), with ASCII and with non-ASCII capitals: the second
@@ -1887,6 +1896,241 @@ fn run_i2n(cases: &[(u64, String, String, PV)], scratch: &Path) -> Vec<String> {
     out
 }
 
+// ------------------------------------------------------------------ load, edit, save
+
+/// the file-name stem the UFO convention gives a name (own transcription, only used to BUILD clashing inputs):
+/// illegal characters and a leading period become `_`, an upper-case letter is followed by `_`
+fn conv_stem(n: &str) -> String {
+    let mut out = String::new();
+    for (i, c) in n.chars().enumerate() {
+        if i == 0 && c == '.' {
+            out.push('_');
+        } else if "\"*+/:<>?[\\]|".contains(c) || (c as u32) < 32 || c as u32 == 127 {
+            out.push('_');
+        } else if c != c.to_lowercase().next().unwrap_or(c) {
+            out.push(c);
+            out.push('_');
+        } else {
+            out.push(c);
+        }
+    }
+    out
+}
+
+/// names that map to the same file name as `n`, exactly or up to case
+fn clash_variants(n: &str) -> Vec<String> {
+    let mut v = Vec::new();
+    let stem = conv_stem(n);
+    v.push(stem.to_lowercase()); // same file name up to case (T_H -> t__h_)
+    if n.contains('_') {
+        v.push(n.replacen('_', "+", 1));
+        v.push(n.replacen('_', "*", 1));
+        v.push(n.replacen('_', ":", 1));
+    }
+    if let Some(rest) = n.strip_prefix('.') {
+        v.push(format!("_{}", rest));
+    }
+    if let Some(rest) = n.strip_prefix('_') {
+        v.push(format!(".{}", rest));
+    }
+    for bad in ["*", "?", "|"] {
+        if n.contains(bad) {
+            v.push(n.replace(bad, "+"));
+        }
+    }
+    v.push(format!("{}?", n.trim_end_matches(['*', '?', '+'])));
+    v.retain(|x| x != n && Name::new(x).is_ok());
+    v.dedup();
+    v
+}
+
+/// the independent writer may name the glif files by the UFO convention (capitals included) instead of `g<i>_.glif`
+fn with_conv_files(desc: &PV) -> PV {
+    let mut top = desc.dict().clone();
+    let layers: Vec<PV> = desc.get("layers").unwrap().arr().iter()
+        .map(|l| {
+            let mut lm = l.dict().clone();
+            let mut used: Vec<String> = Vec::new();
+            let glyphs: Vec<PV> = l.get("glyphs").map(|g| g.arr().to_vec()).unwrap_or_default().into_iter()
+                .map(|g| {
+                    let mut gm = g.dict().clone();
+                    let f = format!("{}.glif", conv_stem(gm["name"].str()));
+                    if !used.contains(&f.to_lowercase()) && f.len() < 200 {
+                        used.push(f.to_lowercase());
+                        gm.insert("file".into(), PV::S(f));
+                    }
+                    PV::D(gm)
+                })
+                .collect();
+            lm.insert("glyphs".into(), PV::A(glyphs));
+            PV::D(lm)
+        })
+        .collect();
+    top.insert("layers".into(), PV::A(layers));
+    PV::D(top)
+}
+
+fn gen_les_ops(rng: &mut Rng, desc: &PV) -> Vec<String> {
+    // layers in the order a loaded font holds them: default first, the others in file order
+    let layers = desc.get("layers").unwrap().arr();
+    let mut order: Vec<&PV> = layers.iter().filter(|l| l.get("dir").unwrap().str() == "glyphs").collect();
+    order.extend(layers.iter().filter(|l| l.get("dir").unwrap().str() != "glyphs"));
+    let mut ops = Vec::new();
+    let n = 1 + rng.below(5);
+    for k in 0..n {
+        let li = rng.below(order.len());
+        let gnames: Vec<String> =
+            order[li].get("glyphs").map(|g| g.arr().iter().map(|x| x.get("name").unwrap().str().to_string()).collect()).unwrap_or_default();
+        let lnames: Vec<String> = order.iter().map(|l| l.get("name").unwrap().str().to_string()).collect();
+        match rng.below(10) {
+            0..=4 if !gnames.is_empty() => {
+                let base = rng.pick(&gnames).clone();
+                let vs = clash_variants(&base);
+                if !vs.is_empty() {
+                    ops.push(format!("ig.{}.{}.{}", li, hexs(rng.pick(&vs[..]).as_str()), k));
+                }
+            }
+            5..=6 if gnames.len() >= 2 => {
+                let old = rng.pick(&gnames).clone();
+                let onto = rng.pick(&gnames).clone();
+                let vs = clash_variants(&onto);
+                if !vs.is_empty() && old != onto {
+                    ops.push(format!("mg.{}.{}.{}", li, hexs(&old), hexs(rng.pick(&vs[..]).as_str())));
+                }
+            }
+            7 if !gnames.is_empty() => ops.push(format!("rg.{}.{}", li, hexs(rng.pick(&gnames[..]).as_str()))),
+            8 => {
+                let base = rng.pick(&lnames).clone();
+                let vs = clash_variants(&base);
+                if !vs.is_empty() {
+                    ops.push(format!("nl.{}", hexs(rng.pick(&vs[..]).as_str())));
+                }
+            }
+            _ => {
+                if lnames.len() >= 2 {
+                    let old = lnames[1 + rng.below(lnames.len() - 1)].clone();
+                    let vs = clash_variants(rng.pick(&lnames[..]).as_str());
+                    if rng.chance(1, 3) {
+                        ops.push(format!("rl.{}", hexs(&old)));
+                    } else if !vs.is_empty() {
+                        ops.push(format!("ml.{}.{}", hexs(&old), hexs(rng.pick(&vs[..]).as_str())));
+                    }
+                } else if !gnames.is_empty() {
+                    let base = rng.pick(&gnames).clone();
+                    let vs = clash_variants(&base);
+                    if !vs.is_empty() {
+                        ops.push(format!("ig.{}.{}.{}", li, hexs(rng.pick(&vs[..]).as_str()), k));
+                    }
+                }
+            }
+        }
+    }
+    ops
+}
+
+fn les_apply(font: &mut Font, op: &str) {
+    let f: Vec<&str> = op.split('.').collect();
+    let us = |h: &str| String::from_utf8(unhex(h)).unwrap();
+    let _ = guarded(|| match f[0] {
+        "ig" | "mg" | "rg" => {
+            let li: usize = f[1].parse().unwrap();
+            if let Some(layer) = font.layers.iter_mut().nth(li) {
+                match f[0] {
+                    "ig" => {
+                        let n = us(f[2]);
+                        if Name::new(&n).is_ok() {
+                            let mut g = Glyph::new(&n);
+                            g.width = 1000.0 + f[3].parse::<f64>().unwrap();
+                            layer.insert_glyph(g);
+                        }
+                    }
+                    "mg" => {
+                        let _ = layer.rename_glyph(&us(f[2]), &us(f[3]), false);
+                    }
+                    _ => {
+                        layer.remove_glyph(&us(f[2]));
+                    }
+                }
+            }
+        }
+        "nl" => {
+            let _ = font.layers.new_layer(&us(f[1]));
+        }
+        "ml" => {
+            let _ = font.layers.rename_layer(&us(f[1]), &us(f[2]), false);
+        }
+        "rl" => {
+            font.layers.remove(&us(f[1]));
+        }
+        _ => {}
+    });
+}
+
+/// les: render (norad or python), load, edit, save, (python reads) -> observation per case
+fn run_les(cases: &[(String, u64, PV, Vec<String>)], scratch: &Path) -> Vec<String> {
+    let src = scratch.join("les-src");
+    let dst = scratch.join("les-dst");
+    rm_rf(&src);
+    rm_rf(&dst);
+    std::fs::create_dir_all(&src).unwrap();
+    std::fs::create_dir_all(&dst).unwrap();
+    // sources: the independent writer writes every case (cheap), norad overwrites the `n` ones
+    let batch = src.join("batch.txt");
+    let mut text = String::new();
+    for (_, seed, desc, _) in cases {
+        text.push_str(&format!("{} - {}\n", seed, desc.encode()));
+    }
+    std::fs::write(&batch, text).unwrap();
+    python(&["write", batch.to_str().unwrap(), src.to_str().unwrap()]);
+    let mut status: Vec<Result<String, String>> = Vec::new();
+    for (i, (kind, _, desc, ops)) in cases.iter().enumerate() {
+        let s = src.join(format!("{}.ufo", i));
+        if kind == "n" {
+            rm_rf(&s);
+            let r = guarded(|| font_of(desc).save(&s));
+            if !matches!(r, Ok(Ok(()))) {
+                status.push(Err("src-save-err".to_string()));
+                continue;
+            }
+        }
+        let mut font = match guarded(|| Font::load(&s)) {
+            Ok(Ok(f)) => f,
+            Ok(Err(e)) => {
+                status.push(Err(format!("load-err:{}", variant(&format!("{:?}", e)))));
+                continue;
+            }
+            Err(_) => {
+                status.push(Err("load-panic".to_string()));
+                continue;
+            }
+        };
+        for op in ops {
+            les_apply(&mut font, op);
+        }
+        let target = dst.join(format!("{}.ufo", i));
+        match guarded(|| font.save(&target)) {
+            Ok(Ok(())) => status.push(Ok(font_pv(&font).encode())),
+            Ok(Err(e)) => {
+                rm_rf(&target);
+                status.push(Err(format!("save-err:{}", variant(&format!("{:?}", e)))));
+            }
+            Err(_) => {
+                rm_rf(&target);
+                status.push(Err("save-panic".to_string()));
+            }
+        }
+    }
+    let lines = python(&["read", dst.to_str().unwrap(), &cases.len().to_string()]);
+    if std::env::var("VERIF_KEEP").is_err() {
+        rm_rf(&src);
+        rm_rf(&dst);
+    }
+    status.into_iter().zip(lines).map(|(st, l)| match st {
+        Ok(dump) => format!("{} {}", dump, l),
+        Err(e) => e,
+    }).collect()
+}
+
 pub fn observe(toks: &[&str], scratch: &Path) -> String {
     match toks[0] {
         "n2i" if toks.len() == 3 => run_n2i(&[(toks[1].to_string(), "-".to_string(), PV::decode(toks[2]))], scratch).remove(0),
@@ -1896,6 +2140,10 @@ pub fn observe(toks: &[&str], scratch: &Path) -> String {
         }
         "i2n" => {
             run_i2n(&[(toks[1].parse().unwrap(), toks[2].to_string(), toks[3].to_string(), PV::decode(toks[4]))], scratch).remove(0)
+        }
+        "les" => {
+            let ops: Vec<String> = if toks[4] == "-" { Vec::new() } else { toks[4].split(';').map(|x| x.to_string()).collect() };
+            run_les(&[(toks[1].to_string(), toks[2].parse().unwrap(), PV::decode(toks[3]), ops)], scratch).remove(0)
         }
         _ => "bad-direction".to_string(),
     }
@@ -1954,6 +2202,28 @@ pub fn gen(tier: &str, seed: u64, out: &mut dyn Write) {
         let obs = run_i2n(&cases, &scratch);
         for ((s, want, req, desc), o) in cases.iter().zip(obs) {
             writeln!(out, "C05 i2n {} {} {} {} => {}", s, want, req, desc.encode(), o).unwrap();
+        }
+    }
+    // ---- load, edit with clashing names, save, independent reader
+    let mut todo = if tier == "thorough" { 8_000 } else { 500 };
+    while todo > 0 {
+        let k = todo.min(batch);
+        todo -= k;
+        let mut cases = Vec::new();
+        for _ in 0..k {
+            let kind = if rng.chance(1, 2) { "n" } else { "i" };
+            let sd = rng.next() >> 1;
+            let mut desc = gen_desc(&mut rng, kind == "n", "", false);
+            if kind == "i" && rng.chance(2, 3) {
+                desc = with_conv_files(&desc);
+            }
+            let ops = gen_les_ops(&mut rng, &desc);
+            cases.push((kind.to_string(), sd, desc, ops));
+        }
+        let obs = run_les(&cases, &scratch);
+        for ((kind, sd, desc, ops), o) in cases.iter().zip(obs) {
+            let opt = if ops.is_empty() { "-".to_string() } else { ops.join(";") };
+            writeln!(out, "C05 les {} {} {} {} => {}", kind, sd, desc.encode(), opt, o).unwrap();
         }
     }
     rm_rf(&scratch);
